@@ -2,7 +2,7 @@
 //! compile-side state. Every choice comes from a named sub-stream of (seed, run).
 use crate::query::*;
 use crate::scenario::*;
-use simcommon::Rng;
+use crate::Rng;
 
 /// Per-property bias of the generator.
 #[derive(Clone, Debug)]
